@@ -17,6 +17,25 @@ pub enum ExpSpec {
     Past { secs: u64, float: bool },
     /// now + secs, secs in 3600 ..= (year 2100 - now)
     Future { secs: u64, float: bool },
+    /// an instant at the edge of a machine type (`EDGE_INSTANTS`), all far in the future: accept
+    Edge { idx: u8, float: bool },
+}
+
+/// absolute instants at the edges of the integer types a NumericDate may pass through (i32, u32,
+/// the f64 integer range, i64, u64); every one of them lies decades or more in the future
+pub const EDGE_INSTANTS: [u64; 9] = [(1 << 31) - 1, 1 << 31, (1u64 << 32) - 1, 1 << 32, 1 << 53, (1 << 53) + 1, (1u64 << 63) - 1, 1 << 63, u64::MAX];
+
+fn edge(idx: u8, float: bool) -> Value {
+    let v = EDGE_INSTANTS[idx as usize % EDGE_INSTANTS.len()];
+    if float {
+        // `u64::MAX as f64` is 2^64, which no longer is a NumericDate the JWT layer can represent
+        // (jsonwebtoken treats a float >= 2^64 as unparseable: such an `exp` counts as missing, such
+        // an `nbf` is ignored — outside what C09 states); the float edge is the largest f64 below it
+        let f = if v == u64::MAX { 18_446_744_073_709_549_568.0 } else { v as f64 };
+        Value::Number(Number::from_f64(f).unwrap())
+    } else {
+        Value::from(v)
+    }
 }
 
 #[derive(Clone, Debug, PartialEq, Serialize, Deserialize)]
@@ -26,6 +45,8 @@ pub enum NbfSpec {
     Past { secs: u64, float: bool },
     /// now + secs, secs in 120 ..= 10 years
     Future { secs: u64, float: bool },
+    /// an instant of `EDGE_INSTANTS` (far in the future): reject
+    Edge { idx: u8, float: bool },
 }
 
 #[derive(Clone, Debug, PartialEq, Serialize, Deserialize)]
@@ -101,6 +122,10 @@ pub fn check(case: &C09Case, st: &mut Stats) -> Verdict {
             obj.insert("exp".into(), num(now + secs, *float));
             st.label(if secs < 86400 { "exp=future<1day" } else { "exp=future>=1day" });
         }
+        ExpSpec::Edge { idx, float } => {
+            obj.insert("exp".into(), edge(*idx, *float));
+            st.label("exp=edge-of-machine-type");
+        }
     }
     match &case.nbf {
         NbfSpec::Absent => {
@@ -116,6 +141,11 @@ pub fn check(case: &C09Case, st: &mut Stats) -> Verdict {
             obj.insert("nbf".into(), num(now + secs, *float));
             must_reject.push("nbf more than 120 s in the future");
             st.label(if secs < 600 { "nbf=future<10min" } else if secs < 86400 { "nbf=future<1day" } else { "nbf=future>=1day" });
+        }
+        NbfSpec::Edge { idx, float } => {
+            obj.insert("nbf".into(), edge(*idx, *float));
+            must_reject.push("nbf far in the future (edge of a machine type)");
+            st.label("nbf=edge-of-machine-type");
         }
     }
     match case.iat_mode {
